@@ -352,7 +352,9 @@ def vm_crosscheck(prop_id: str, cases_enc: list[str], expected: list) -> tuple[i
         assert '"' not in line
         body.append(f'Eval vm_compute in run_line "{line}".')
     (d / "cases.v").write_text("\n".join(body) + "\n")
-    rc, out, _ = sh(["coqc", "-Q", str(THEORIES), "CBI", "cases.v"], cwd=d, timeout=900)
+    # long string literals need a deep stack in coqc's parser
+    rc, out, _ = sh(["bash", "-c", f"ulimit -s unlimited 2>/dev/null || ulimit -s $(ulimit -H -s) 2>/dev/null; "
+                                   f"exec coqc -Q {THEORIES} CBI cases.v"], cwd=d, timeout=900)
     if rc != 0:
         return 0, [("coqc failed", out[-400:])]
     got = re.findall(r'^\s*= "(.*)"\s*$', out, flags=re.M)
@@ -542,7 +544,9 @@ def run_check(chk: Check) -> int:
     vm_n, vm_bad = 0, []
     if model_ok and cases:
         k = max(3, min(40, len(cases) // 100))
-        idx = sorted(chk.rng.sample(range(len(cases)), min(k, len(cases))))
+        # the cross-check re-evaluates cases as Coq string literals: keep it to cases of moderate size
+        small = [i for i in range(len(cases)) if len(chk.encode(cases[i])) <= 30000] or list(range(len(cases)))
+        idx = sorted(chk.rng.sample(small, min(k, len(small))))
         vm_n, vm_bad = vm_crosscheck(pid, [chk.encode(cases[i]) for i in idx], [model_raw[i] for i in idx])
         if vm_bad:
             b.broken.append(f"extraction cross-check (vm_compute vs OCaml) disagrees: {vm_bad[:2]}")
